@@ -56,6 +56,8 @@ class AbstractSpecification(object):
     @unit.setter
     def unit(self, unit):
         self.ast.unit = unit
+        # operators that were already built read their bounds with the former unit: build them again
+        self.set_ast_flag = False
 
     # forwarding to ast
     def add_var(self, var):
@@ -148,8 +150,13 @@ class AbstractSpecification(object):
     def set_sampling_period(self, sampling_period=int(1), unit='s', tolerance=float(0.1)):
         if unit not in ('s', 'ms', 'us', 'ns'):
             raise RTAMTException('Unknown time unit {}: the units are s, ms, us and ns.'.format(unit))
+        if tolerance < 0.0 or tolerance > 1.0:
+            raise RTAMTException('Tolerance must be in [0,1]')
         self.ast.sampling_period = sampling_period
         self.ast.sampling_period_unit = unit
+        # operators that were already built (by an earlier update() or reset()) count their bounds
+        # in the former period: build them again, from their initial state, at the next evaluation
+        self.set_ast_flag = False
 
         if hasattr(self, 'online_interpreter'):
             if isinstance(self.online_interpreter, DiscreteTimeInterpreter):
